@@ -488,6 +488,9 @@ fn messages(thorough: bool) -> Vec<M> {
         }
     }
     v.push(M::Finished((0..12).collect()));
+    for n in [16379usize, 16380, 16381, 16500, 16636] {
+        v.push(M::Finished((0..n).map(|i| (i % 241) as u8).collect()));
+    }
     v.push(M::HelloRequest);
     v.push(M::Ccs);
     for n in 0..14 {
@@ -538,7 +541,7 @@ fn main() {
     let mut sink = Sink::new();
     // (1) every catalogue message on its own
     let s1 = par_run(run.threads, msgs.len(), |i, sink| {
-        if !thorough && matches!(&msgs[i], M::CkeUnknown(d) | M::Finished(d) | M::CkeDh(d) if d.len() > 256) {
+        if !thorough && matches!(&msgs[i], M::CkeUnknown(d) | M::Finished(d) | M::CkeDh(d) if d.len() > 20000) {
             return;
         }
         let r = check_message(&msgs[i]);
@@ -575,6 +578,20 @@ fn main() {
                 recs.push(vec![a, b, c]);
             }
         }
+    }
+    // payload sizes around 2^14 and up to the record cap 2^14+256 (Finished body = payload - 4)
+    let mut size_msgs: Vec<usize> = Vec::new();
+    let base_len = msgs.len();
+    let _ = base_len;
+    for (i, m) in msgs.iter().enumerate() {
+        if let M::Finished(d) = m {
+            if [16379usize, 16380, 16381, 16500, 16636].contains(&d.len()) {
+                size_msgs.push(i);
+            }
+        }
+    }
+    for &i in &size_msgs {
+        recs.push(vec![i]);
     }
     let nrecs = recs.len();
     let s2 = par_run(run.threads, recs.len(), |i, sink| {
